@@ -240,6 +240,11 @@ func (r *Run) Inconclusive(what string) {
 // HarnessError aborts with exit status 2 (mapped by the driver).
 func (r *Run) HarnessError(format string, args ...any) {
 	fmt.Printf("HARNESS-ERROR: property=%s %s\n", r.ID, fmt.Sprintf(format, args...))
+	if out := os.Getenv("VERIF_FUZZ_OUT"); out != "" {
+		// inside a native fuzz worker: leave a note for the parent, never touch the evidence
+		os.WriteFile(filepath.Join(out, fmt.Sprintf("harness-error-%d.log", os.Getpid())), []byte(fmt.Sprintf(format, args...)), 0o644)
+		os.Exit(2)
+	}
 	r.writeEvidence()
 	os.Exit(2)
 }
